@@ -618,6 +618,17 @@ class Executor:
             if not cases:
                 return NONE
             return self.ite_chain(cases)
+        if base.ty == TStr and not isinstance(base, (PyTuple, PyDict)):
+            # a character of a string (strings are identifiers): an
+            # uninterpreted function of the text and the index; IndexError
+            # outside the length, the empty string is the one of length 0
+            i  = self.as_int(st, idx)
+            ln = z3.Function('str!len', C.StrSort, z3.IntSort())(base.term)
+            st.assume(ln >= 0)
+            st.assume((ln == 0) == (base.term == C.str_lit('')))
+            self.fail(st, z3.Or(i >= ln, i < -ln), 'IndexError')
+            f = z3.Function('str!at', C.StrSort, z3.IntSort(), C.StrSort)
+            return Val(TStr, f(base.term, i))
         sel = self.selector(st, base, idx)
         return self.select(base, sel)
 
@@ -957,7 +968,16 @@ class Executor:
                             self.fail(st, z3.BoolVal(True), 'TypeError')
                         elif isinstance(it.ty, TOpt):
                             self.fail(st, it.ty.is_none(it.term), 'TypeError')
-        return self.str_fn('fmt', [fmt] + list(items))
+        out = self.str_fn('fmt', [fmt] + list(items))
+        if fmt.has_py() and not out.has_py():
+            # the literal characters of the format are part of the result
+            import re
+            lit = re.sub(r'%[-#0 +]*\d*(?:\.\d+)?[a-zA-Z]', '', fmt.py).replace('%%', '%')
+            ln = z3.Function('str!len', C.StrSort, z3.IntSort())(out.term)
+            st.assume(ln >= len(lit))
+            if lit:
+                st.assume(out.term != C.str_lit(''))
+        return out
 
     def ev_JoinedStr(self, node, st):
         parts = []
